@@ -1,5 +1,6 @@
 import ChiDriver.Common
 import ChiModel.Reduced
+import ChiModel.ReducedSegments
 open Wire ChiModel.Reduced
 namespace ChiDriver.C08
 
@@ -25,5 +26,31 @@ def history : Op
       .int (nFree c), .int (nFixed c), ofFlts (restrict c grad), .bool st.isNone]
   | _ => none
 
-def ops : List (String × Op) := [("C08.history", history)]
+def parseSeg (v : Val) : Option (Seg Float) := do
+  match v with
+  | .list [namesV, opsV] =>
+    let names ← namesV.strs?
+    let ops ← (← opsV.list?).mapM parseReq
+    some (names, ops)
+  | _ => none
+
+/-- `C08.segments segs free grad`: a life of a reduced population model as stretches `[names, ops]` (the
+    parameter list of the wrapped model during the stretch, the requests made in it); the output is that of
+    `C08.history` for the LAST parameter list -/
+def segments : Op
+  | [segsV, freeV, gradV] => do
+    let segs ← (← segsV.list?).mapM parseSeg
+    let free ← freeV.flts?
+    let grad ← gradV.flts?
+    let nan : Float := 0.0 / 0.0
+    match segs with
+    | [] => none
+    | first :: rest =>
+      let r := runSegs nan first rest
+      let c := view r.1 nan r.2
+      some [.list (c.map (fun x => .bool x.1)), ofFlts (fill c free), ofStrs (restrict c r.1),
+        .int (nFree c), .int (nFixed c), ofFlts (restrict c grad), .bool r.2.isNone]
+  | _ => none
+
+def ops : List (String × Op) := [("C08.history", history), ("C08.segments", segments)]
 end ChiDriver.C08
